@@ -181,6 +181,7 @@ func phItemPrograms(maxActions int) []string {
 // probe request [R] with the same parent context (same "connection"), all through BatchExecutor.HandleRequest.
 func phSeqExhaustive(maxItems, maxActions int) func() {
 	return func() {
+		resetPackages()
 		exec := kmipserver.NewBatchExecutor()
 		exec.Route(kmip.OperationActivate, kmipserver.HandleFunc(phHandler(false)))
 		progs := phItemPrograms(maxActions)
@@ -217,11 +218,41 @@ func phSeqExhaustive(maxItems, maxActions int) func() {
 }
 
 // phConcurrent: k requests (each a fixed batch) run concurrently through one executor; handlers yield before every action.
-func phConcurrent(batches [][]string) func() {
+// prelude: a request processed (sequentially) before the concurrent ones start: "" none, "undo" / "count" / "version"
+// (rejected as a whole), "faileditem" (an item fails), "panic" (an item panics), "ok" (a plain successful request).
+func phPrelude(exec *kmipserver.BatchExecutor, parent context.Context, kind string) {
+	var req *kmip.RequestMessage
+	switch kind {
+	case "":
+		return
+	case "undo":
+		req = phRequest("pre", []string{"Sz"}, false)
+		req.Header.BatchErrorContinuationOption = kmip.BatchErrorContinuationOptionUndo
+	case "count":
+		req = phRequest("pre", []string{"Sz"}, false)
+		req.Header.BatchCount = 5
+	case "version":
+		req = phRequest("pre", []string{"Sz"}, false)
+		req.Header.ProtocolVersion = kmip.ProtocolVersion{ProtocolVersionMajor: 9, ProtocolVersionMinor: 9}
+	case "faileditem":
+		req = phRequest("pre", []string{"Sz", "F"}, false)
+	case "panic":
+		req = phRequest("pre", []string{"Sz", "P"}, false)
+	case "ok":
+		req = phRequest("pre", []string{"Sz", "R"}, false)
+	}
+	_ = exec.HandleRequest(parent, req)
+}
+
+func phConcurrent(batches [][]string, prelude ...string) func() {
 	return func() {
+		resetPackages()
 		exec := kmipserver.NewBatchExecutor()
 		exec.Route(kmip.OperationActivate, kmipserver.HandleFunc(phHandler(true)))
 		parent := context.WithValue(context.Background(), shutConnKey{}, "conn")
+		for _, p := range prelude {
+			phPrelude(exec, parent, p)
+		}
 		done := make([]*mc.Var[bool], len(batches))
 		for i, b := range batches {
 			i, b := i, b
@@ -243,6 +274,7 @@ func phConcurrent(batches [][]string) func() {
 // phServer: the same through real server connections: conns[i] is a list of requests (batches) sent sequentially on connection i.
 func phServer(conns [][][]string) func() {
 	return func() {
+		resetPackages()
 		lis := &Listener{}
 		exec := kmipserver.NewBatchExecutor()
 		exec.Route(kmip.OperationActivate, kmipserver.HandleFunc(phHandler(true)))
@@ -308,6 +340,16 @@ func init() {
 	}
 	conc("ph-conc-2", "two concurrent requests: [Sa, R|G] and [R, Sb|R]", [][]string{{"Sa", "R|G"}, {"R", "Sb|R"}})
 	conc("ph-conc-2-fail", "two concurrent requests: [Sa, F, R] and [Sb, R, R]", [][]string{{"Sa", "F", "R"}, {"Sb", "R", "R"}})
+	for _, pre := range []string{"undo", "count", "version", "faileditem", "panic", "ok"} {
+		pre := pre
+		name := "ph-conc-2-after-" + pre
+		register(name, func() *Scenario {
+			return &Scenario{Name: name, Doc: "a request of kind '" + pre + "' is processed first, then two concurrent requests [Sa, R|G] and [R, Sb|R]", Body: phConcurrent([][]string{{"Sa", "R|G"}, {"R", "Sb|R"}}, pre)}
+		})
+	}
+	register("ph-conc-2-after-undo-undo", func() *Scenario {
+		return &Scenario{Name: "ph-conc-2-after-undo-undo", Doc: "two rejected requests, then two concurrent requests", Body: phConcurrent([][]string{{"Sa", "R|G"}, {"R", "Sb|R"}}, "undo", "count")}
+	})
 	conc("ph-conc-3", "three concurrent requests: [Sa,R] [Sb,R] [R,R]", [][]string{{"Sa", "R"}, {"Sb", "R"}, {"R", "R"}})
 	srvs := func(name, doc string, c [][][]string) {
 		register(name, func() *Scenario { return &Scenario{Name: name, Doc: doc, Body: phServer(c)} })
